@@ -61,6 +61,8 @@ pub struct FnContract {
     pub hints: Vec<Hint>,
     /// proof text executed at every exit of the function
     pub exit_ghost: Vec<String>,
+    /// closure ordinal -> (return type, ensures clause)
+    pub closures: BTreeMap<usize, (String, Clause)>,
     pub attrs: Vec<String>, // extra verifier attributes, e.g. exec_allows_no_decreases_clause
     pub shape: Option<String>, // `shape transmute` : do not weave, only check body shape (X5)
     pub line: usize,
@@ -88,7 +90,7 @@ pub struct Unit {
 
 const FN_KEYS: &[&str] = &[
     "emit-as", "fx", "ret", "requires", "ensures", "decreases", "loop", "bind", "bind?", "exit-assert",
-    "hint", "attr", "shape", "exit-assert-ret", "exit-ghost",
+    "hint", "attr", "shape", "exit-assert-ret", "exit-ghost", "closure",
 ];
 const TOP_KEYS: &[&str] = &["unit", "fxcalls", "guardfn", "tryguardfn", "copy", "fn", "prelude", "typerewrite"];
 
@@ -241,6 +243,17 @@ pub fn parse(text: &str, path: &str) -> Unit {
                         let (mut cl, first) = parse_tag(tail, ln);
                         cl.text = take_text(&lines, &mut i, first);
                         c.exit_asserts.push(ExitAssert { var: var.to_string(), clause: cl, on_ret: w == "exit-assert-ret" });
+                    }
+                    "closure" => {
+                        // closure <n> -> <type> ensures [tag] text
+                        let mut ws = rest.splitn(2, char::is_whitespace);
+                        let n: usize = ws.next().unwrap().parse().unwrap_or_else(|_| panic!("{}:{}: closure ordinal", path, ln));
+                        let tail = ws.next().unwrap_or("").trim();
+                        let tail = tail.strip_prefix("->").unwrap_or_else(|| panic!("{}:{}: closure <n> -> <type> ensures [..] text", path, ln));
+                        let (ty, e) = tail.split_once(" ensures ").unwrap_or_else(|| panic!("{}:{}: closure needs `ensures`", path, ln));
+                        let (mut cl, first) = parse_tag(e, ln);
+                        cl.text = take_text(&lines, &mut i, first);
+                        c.closures.insert(n, (ty.trim().to_string(), cl));
                     }
                     "exit-ghost" => {
                         let txt = take_text(&lines, &mut i, rest.trim_start_matches(':').trim().to_string());
